@@ -107,6 +107,14 @@ func (c07) Probes() []string {
 	return ps
 }
 
+// ProbeNeeds: probes that presuppose a shape of the code under test. A tree
+// whose request path takes no lock at all (an atomically swapped snapshot) is a
+// legitimate implementation of the property; there is then no "between
+// snapshot (lock released) and dispatch" and the probe is not demanded.
+func (c07) ProbeNeeds() map[string]string {
+	return map[string]string{"preempt_between_snapshot_and_dispatch": "request_released_a_lock", "acquire_parked": "lock_acquired", "writer_preempted_in_critical_section": "lock_acquired"}
+}
+
 // ---------------------------------------------------------------- generation
 
 func varyCfg(r *R, a Cfg) Cfg {
@@ -521,12 +529,16 @@ func (s *sched) acquire(try func() bool, label string) {
 		s.handoff(event{kind: evBlocked})
 	}
 	s.inCrit[t.id] = true
+	s.c.hit("lock_acquired")
 }
 
 func (s *sched) released() {
 	s.relGen++
 	s.inCrit[s.cur] = false
 	s.tasks[s.cur].relSeen = true
+	if t := s.tasks[s.cur]; t.opIdx < len(s.p.Tasks[t.id].Ops) && s.p.Tasks[t.id].Ops[t.opIdx].Kind == "req" && !t.seamSeen {
+		s.c.hit("request_released_a_lock") // before its first seam: the request's own snapshot, not a re-entrant operator call
+	}
 	for _, t := range s.tasks {
 		if t.blocked {
 			t.blocked = false
